@@ -228,17 +228,30 @@ def run(ix, R):
             o = one(orig, 'orig')
             same = [r for r in rets if fl.tab.equal(r.value, o.value) or
                     (isinstance(r.value_ast, ast.Name) and r.value_ast.id == o.name)]
-            s = one(same, 'identity return')
-            g = s.guards[-1] if s.guards else None
-            cond = spec(fl, '_or(w is None, array_equal(self.wavenumberGrid.take(F), w))', dict(pe, F=filt))
-            if g is None or not g.positive or not fl.tab.equal(g.rf, cond):
-                why.append('identity branch under %s' % (g.text() if g else None))
+            # every path that returns the native opacities unchanged must be licensed by
+            # `no grid given` or by an element-wise comparison of the selected native points with the request
+            conds = [spec(fl, '_or(w is None, array_equal(self.wavenumberGrid.take(F), w))', dict(pe, F=filt)),
+                     spec(fl, 'w is None', pe),
+                     spec(fl, 'array_equal(self.wavenumberGrid.take(F), w)', dict(pe, F=filt)),
+                     spec(fl, 'array_equal(self.wavenumberGrid[F], w)', dict(pe, F=filt))]
+            if not same:
+                why.append('no path returns the native opacities unchanged')
+            for s in same:
+                g = [x for x in s.guards if x.positive]
+                lic = bool(g) and any(fl.tab.equal(g[-1].rf, c) for c in conds)
+                if not lic:
+                    why.append('native opacities returned unchanged under %s, which does not compare every selected '
+                               'native point with the request' % [x.text() for x in s.guards])
             R.check('3.native', 'DOM', site,
                     'when the request equals the selected native points (or no grid is given) the value returned is '
                     'compute_opacity(...) itself',
                     not why, key='; '.join(why), detail='; '.join(why), loc=f.loc())
             other = [r for r in rets if r not in same]
-            r2 = one(other, 'interpolation return')
+            if len(other) != 1:
+                R.fail('3.interp', 'ALG', site, 'otherwise the value is interpolated over exactly the selected native points',
+                       '%d interpolation returns' % len(other), 'returns: %s' % [unparse(r.value_ast) for r in other], f.loc())
+                continue
+            r2 = other[0]
             ok = False
             if interp_name == 'interp':
                 ok = fl.tab.equal(r2.value, spec(fl, 'interp(w, self.wavenumberGrid[F], O)', dict(pe, F=filt, O=o.value)))
